@@ -13,7 +13,7 @@ from . import bigframe, repo
 
 VERIF = os.path.dirname(os.path.dirname(os.path.abspath(__file__)))
 NPROC = int(os.environ.get("VERIF_NPROC", "16"))
-MAX_VIOL_PER_PART = 400
+MAX_VIOL_PER_PART = 4000
 MAX_REPLAYS = 40
 
 
@@ -187,6 +187,10 @@ class Ctx:
                 new.append((sig, vs))
         for eid, (e, sigs) in reported_known.items():
             print(f"KNOWN-FINDING: property={self.prop} {e['what']} [{eid}; {len(sigs)} signature(s) seen]")
+        if os.environ.get("VERIF_DUMP_SIGS"):
+            with open(os.environ["VERIF_DUMP_SIGS"], "w") as f:
+                for sig, vs in by_sig.items():
+                    f.write(json.dumps({"n": len(vs), "sig": sig, "detail": vs[0]["detail"][:300], "witness": vs[0]["witness"]}, default=repr) + "\n")
         rdir = os.path.join(VERIF, "replays", self.prop)
         for sig, vs in new[:MAX_REPLAYS]:
             os.makedirs(rdir, exist_ok=True)
